@@ -124,7 +124,23 @@ def result_value(ty, line):
 
 
 def fstr(x):
-    return "%s (~%.17g)" % (x, float(x)) if x is not None else "None"
+    """exact dyadic rationals as m*2^e, other rationals as a (truncated) fraction; always with a float approximation"""
+    if x is None:
+        return "None"
+    if x == 0:
+        return "0"
+    n, d = x.numerator, x.denominator
+    try:
+        approx = "%.17g" % float(x)
+    except OverflowError:
+        approx = "out of double range"
+    if d & (d - 1) == 0:
+        e = -(d.bit_length() - 1)
+        while n % 2 == 0:
+            n //= 2
+            e += 1
+        return "%d*2^%d (~%s)" % (n, e, approx)
+    return "%s (~%s)" % (str(x)[:160], approx)
 
 
 def perturb(g, ty, bits):
